@@ -4,7 +4,7 @@
 Require Extraction.
 Require ExtrOcamlBasic.
 From Coq Require Import List NArith.
-From SV Require Import Params Codec.Varint Codec.Schedule Clock.VClock Prim.Objects Prim.Atomic Engine.Exec Engine.Failure Engine.Runner Prim.Semaphore Lang.SyncOps Lang.SyncOps2 Lang.AsyncOps Lang.Prog Lang.ProgRun Sched.Dfs Sched.Random Sched.Pct Sched.Replay Sched.ReplayTarget Lang.PlMap Lang.PlOps Lang.TokOps Lang.TokNotify Lang.TokWatch Lang.Tok.
+From SV Require Import Params Codec.Varint Codec.Schedule Clock.VClock Prim.Objects Prim.Atomic Engine.Exec Engine.Failure Engine.Runner Prim.Semaphore Lang.SyncOps Lang.SyncOps2 Lang.AsyncOps Lang.Prog Lang.ProgRun Sched.Dfs Sched.Random Sched.Pct Sched.Replay Sched.ReplayTarget Sched.Urw Lang.PlMap Lang.PlOps Lang.TokOps Lang.TokNotify Lang.TokWatch Lang.Tok.
 Extraction Language OCaml.
 Separate Extraction
   N.add N.mul N.sub N.div N.modulo N.eqb N.ltb N.leb N.of_nat N.to_nat N.succ N.pred N.compare
@@ -13,6 +13,6 @@ Separate Extraction
   Sched.Dfs.dfs_run Sched.Dfs.dfs_outcome Sched.Dfs.leaves Sched.Dfs.truncate Sched.Dfs.wf_treeb Sched.Dfs.next_task Sched.Dfs.new_execution Sched.Dfs.dfs_new
   Sched.Random.rs_new_from_seed Sched.Random.rs_new_execution Sched.Random.rs_next_task Sched.Random.rs_next_u64
   Sched.Pct.pct_new_from_seed Sched.Pct.pct_new_execution Sched.Pct.pct_next_task Sched.Pct.pct_next_u64
-  Sched.Random.fd_initialize Sched.Random.fd_reinitialize Sched.Random.fd_next_u64 Sched.Random.pcg_from_seed_u64 Sched.Random.pcg_next_u64 Sched.Replay.replay Sched.ReplayTarget.rt_next_task Sched.ReplayTarget.rt_next_u64 Sched.Random.ds_initialize Sched.Random.ds_reinitialize Sched.Random.ds_next_u64 Engine.Failure.do_history Engine.Failure.init_pstate Engine.Failure.portfolio_run Engine.Failure.ug_run Engine.Failure.ug_history Engine.Failure.panic_result
+  Sched.Random.fd_initialize Sched.Random.fd_reinitialize Sched.Random.fd_next_u64 Sched.Random.pcg_from_seed_u64 Sched.Random.pcg_next_u64 Sched.Replay.replay Sched.Urw.urw_new_from_seed Sched.Urw.urw_new_execution Sched.Urw.urw_next_task Sched.Urw.urw_next_u64 Sched.ReplayTarget.rt_next_task Sched.ReplayTarget.rt_next_u64 Sched.Random.ds_initialize Sched.Random.ds_reinitialize Sched.Random.ds_next_u64 Engine.Failure.do_history Engine.Failure.init_pstate Engine.Failure.portfolio_run Engine.Failure.ug_run Engine.Failure.ug_history Engine.Failure.panic_result
   Lang.PlOps.run_pl Lang.PlMap.hist_results
   Lang.Tok.run_tok Lang.TokOps.mpsc_new Lang.TokOps.tok_sem_new Lang.TokNotify.notify_new Lang.TokNotify.oneshot_new Lang.TokWatch.watch_new.
